@@ -57,6 +57,12 @@ func (e *pickEnv) mk(i int, scheme, cond string) string {
 	e.n++
 	id := fmt.Sprint(i)
 	dir := filepath.Join(e.root, fmt.Sprintf("w%d", e.n))
+	if e.n%2 == 1 && cond != "missingdir" && (scheme == "file" || scheme == "ca+file") {
+		// every other local warehouse directory is reached through a symlink: a layout detail that must not matter
+		real := dir + ".real"
+		os.MkdirAll(real, 0755)
+		os.Symlink(real, dir)
+	}
 	switch scheme {
 	case "file":
 		switch cond {
